@@ -20,6 +20,24 @@ pub fn run(args: &Args, rep: &mut Report) {
     }
 
     let dms = dms_available();
+    // structured families: nested parallels completing in every order, histories at every level
+    {
+        let mut rng = args.rng(12);
+        for d in 0..args.scale(16, 300) {
+            if crate::report::should_stop() {
+                break;
+            }
+            let dm = dms[d % dms.len()];
+            let (doc, paths) = if d % 2 == 0 { crate::corpus::history_tree(&mut rng, dm, d) } else { crate::corpus::done_tree(&mut rng, dm, d) };
+            if let Ok(f) = crate::refsim::Flat::from_doc(&doc) {
+                for p in paths.iter().take(3) {
+                    if w.run_one(&doc, &f, p, false) {
+                        w.rep.nontrivial_key(&distinct_key(&doc, p));
+                    }
+                }
+            }
+        }
+    }
     let n_docs = args.scale(260, 3000);
     let tune = |o: &mut GenOpts| {
         o.w_parallel = 4;
